@@ -453,6 +453,30 @@ def _bind(helper, call, is_method, keep=()):
 _bind.counter = {}
 
 
+def _would_capture(helper, caller):
+    """a global / builtin name the helper body reads is a LOCAL name of the function it would be inlined into"""
+    if caller is None or helper is caller:
+        return False
+    for anc in ast.walk(caller):
+        if anc is helper:
+            return False              # a closure of the caller: its free names are the caller's on purpose
+    own = {a.arg for a in helper.args.posonlyargs + helper.args.args + helper.args.kwonlyargs}
+    if helper.args.vararg:
+        own.add(helper.args.vararg.arg)
+    if helper.args.kwarg:
+        own.add(helper.args.kwarg.arg)
+    own |= {n.id for s_ in helper.body for n in _walk_local(s_) if isinstance(n, ast.Name) and isinstance(n.ctx, (ast.Store, ast.Del))}
+    free = {n.id for s_ in helper.body for n in ast.walk(s_) if isinstance(n, ast.Name) and isinstance(n.ctx, ast.Load)} - own
+    local = {a.arg for a in caller.args.posonlyargs + caller.args.args + caller.args.kwonlyargs}
+    if caller.args.vararg:
+        local.add(caller.args.vararg.arg)
+    if caller.args.kwarg:
+        local.add(caller.args.kwarg.arg)
+    local |= {n.id for n in _walk_local(caller) if isinstance(n, ast.Name) and isinstance(n.ctx, (ast.Store, ast.Del))}
+    local |= {n.name for n in _walk_local(caller) if isinstance(n, FUNC + (ast.ClassDef,)) and n is not caller}
+    return bool(free & local)
+
+
 def _helper_body(helper):
     body = list(helper.body)
     if body and isinstance(body[0], ast.Expr) and isinstance(body[0].value, ast.Constant) and isinstance(body[0].value.value, str):
@@ -728,6 +752,8 @@ class _Inliner:
         helper, is_method = h
         if helper in fn_stack:
             return None               # recursion
+        if _would_capture(helper, fn_stack[-1] if fn_stack else None):
+            return None
         awaited = isinstance(getattr(st, "value", None), ast.Await)
         if isinstance(helper, ast.AsyncFunctionDef) != awaited:
             return None
@@ -800,7 +826,7 @@ class _Inliner:
             if h is None:
                 return False
             helper, _m = h
-            if helper in fn_stack or isinstance(helper, ast.AsyncFunctionDef):
+            if helper in fn_stack or isinstance(helper, ast.AsyncFunctionDef) or _would_capture(helper, fn_stack[-1]):
                 return False
             if any(isinstance(n, (ast.Yield, ast.YieldFrom)) for s_ in helper.body for n in _walk_local(s_)):
                 return False
@@ -876,7 +902,8 @@ class _Inliner:
                 # `await helper(..)` with an async helper whose body is one returned expression: that expression, evaluated here
                 if isinstance(node.value, ast.Call):
                     h = outer.resolve(node.value, cls, fn_stack, helpers)
-                    if h is not None and isinstance(h[0], ast.AsyncFunctionDef) and h[0] not in fn_stack and isinstance(fn_stack[-1], ast.AsyncFunctionDef):
+                    if h is not None and isinstance(h[0], ast.AsyncFunctionDef) and h[0] not in fn_stack and isinstance(fn_stack[-1], ast.AsyncFunctionDef) and \
+                            not _would_capture(h[0], fn_stack[-1]):
                         e = _expr_bodied(h[0])
                         if e is not None:
                             for k, a in enumerate(node.value.args):
@@ -899,7 +926,7 @@ class _Inliner:
                 if h is None:
                     return node
                 helper, is_method = h
-                if helper in fn_stack or isinstance(helper, ast.AsyncFunctionDef):
+                if helper in fn_stack or isinstance(helper, ast.AsyncFunctionDef) or _would_capture(helper, fn_stack[-1]):
                     return node
                 e = _expr_bodied(helper)
                 if e is None:
@@ -1307,7 +1334,7 @@ def _regionwise(fn, v, stores, loads):
 def _named_values(fn, self_unstable=None):
     n_done = 0
     _ADJACENT_ONLY.clear()
-    for _ in range(6):
+    for _ in range(40):
         stores, loads = {}, {}
         for n in _walk_local(fn):
             if isinstance(n, ast.Name):
@@ -1590,6 +1617,9 @@ def _falling_arms(st):
                 continue
             if _always_exits(blk):
                 continue
+            if isinstance(blk[-1], ast.If) and blk[-1].orelse:
+                rec(blk[-1])              # the arm ends in a decision of its own: its arms are the places control falls out of
+                continue
             arms.append(blk)
     rec(st)
     return arms, implicit
@@ -1654,6 +1684,117 @@ def _thread_jumps(fn):
                 break
         if not changed:
             break
+    return n_done
+
+
+def _duplicate_tail(fn):
+    """an if-chain whose every falling arm ends by binding the same local to a literal, followed by a short tail that ends in
+    return/raise and reads that local: the tail is copied to the end of each arm (where the value-naming pass then puts the literal in).
+    This is how `kind = classify(..); return TABLE[kind](..)` reads once classify has been inlined."""
+    n_done = 0
+    for blk in _blocks(fn):
+        for i in range(len(blk) - 1):
+            a, rest = blk[i], [s_ for s_ in blk[i + 1:] if not isinstance(s_, ast.Pass)]
+            if not isinstance(a, ast.If) or not rest or len(rest) > 3 or not isinstance(rest[-1], (ast.Return, ast.Raise)):
+                continue
+            if any(isinstance(x, FUNC + (ast.Lambda, ast.NamedExpr)) for s_ in rest for x in ast.walk(s_)):
+                continue
+            arms, implicit = _falling_arms(a)
+            if implicit or len(arms) < 2 or len(arms) > 16:
+                continue
+            t = None
+            ok = True
+            for arm in arms:
+                last = arm[-1]
+                if not (isinstance(last, ast.Assign) and len(last.targets) == 1 and isinstance(last.targets[0], ast.Name) and isinstance(last.value, ast.Constant)
+                        and isinstance(last.value.value, (str, int)) and not isinstance(last.value.value, bool)):
+                    ok = False
+                    break
+                if t is None:
+                    t = last.targets[0].id
+                elif t != last.targets[0].id:
+                    ok = False
+                    break
+            if not ok or t is None:
+                continue
+            reads = any(isinstance(x, ast.Name) and x.id == t and isinstance(x.ctx, ast.Load) for s_ in rest for x in ast.walk(s_))
+            writes = any(isinstance(x, ast.Name) and x.id == t and isinstance(x.ctx, (ast.Store, ast.Del)) for s_ in rest for x in ast.walk(s_))
+            size = sum(1 for s_ in rest for _x in ast.walk(s_))
+            if not reads or writes or size * len(arms) > 1500:
+                continue
+            for arm in arms:
+                arm.extend(copy.deepcopy(s_) for s_ in rest)
+            del blk[i + 1:]
+            n_done += 1
+            break
+    return n_done
+
+
+def _module_tables(tree):
+    """module-level `NAME = {constant: <lambda | name | constant>, ...}` bound once and only ever read by subscription / .get"""
+    stores, tables = {}, {}
+    for n in ast.walk(tree):
+        if isinstance(n, ast.Name) and isinstance(n.ctx, (ast.Store, ast.Del)):
+            stores[n.id] = stores.get(n.id, 0) + 1
+        elif isinstance(n, (ast.Global, ast.Nonlocal)):
+            for x in n.names:
+                stores[x] = stores.get(x, 0) + 2
+        elif isinstance(n, ast.arg):
+            stores[n.arg] = stores.get(n.arg, 0) + 2
+    for st in tree.body:
+        if isinstance(st, ast.Assign) and len(st.targets) == 1 and isinstance(st.targets[0], ast.Name) and isinstance(st.value, ast.Dict) and st.value.keys and \
+                all(isinstance(k, ast.Constant) and isinstance(k.value, (str, int)) for k in st.value.keys) and \
+                all(isinstance(v, (ast.Lambda, ast.Name, ast.Constant)) for v in st.value.values):
+            tables[st.targets[0].id] = st.value
+    tables = {k: v for k, v in tables.items() if stores.get(k, 0) == 1}
+    if not tables:
+        return {}
+    # every other mention must be NAME[...] (load) or NAME.get(...)
+    parents = {}
+    for p_ in ast.walk(tree):
+        for c in ast.iter_child_nodes(p_):
+            parents[id(c)] = p_
+    for n in ast.walk(tree):
+        if isinstance(n, ast.Name) and n.id in tables and isinstance(n.ctx, ast.Load):
+            p_ = parents.get(id(n))
+            ok = (isinstance(p_, ast.Subscript) and p_.value is n and isinstance(p_.ctx, ast.Load)) or \
+                (isinstance(p_, ast.Attribute) and p_.attr == "get" and isinstance(parents.get(id(p_)), ast.Call) and parents[id(p_)].func is p_)
+            if not ok:
+                tables.pop(n.id, None)
+    return tables
+
+
+def _fold_table_lookups(tree):
+    """TABLE['k'] -> the entry;  (lambda a, b: e)(x, y) with plain arguments -> e[a:=x, b:=y]"""
+    tables = _module_tables(tree)
+    n_done = 0
+    for fn in [x for x in ast.walk(tree) if isinstance(x, FUNC)]:
+        local = {x.id for x in _walk_local(fn) if isinstance(x, ast.Name) and isinstance(x.ctx, (ast.Store, ast.Del))} | \
+            {a.arg for a in fn.args.posonlyargs + fn.args.args + fn.args.kwonlyargs} | ({fn.args.vararg.arg} if fn.args.vararg else set()) | ({fn.args.kwarg.arg} if fn.args.kwarg else set())
+        for sub in [x for x in _walk_local(fn) if isinstance(x, ast.Subscript) and isinstance(x.ctx, ast.Load) and isinstance(x.value, ast.Name) and x.value.id in tables
+                    and x.value.id not in local and isinstance(x.slice, ast.Constant)]:
+            d = tables[sub.value.id]
+            hit = [v for k, v in zip(d.keys, d.values) if type(k.value) is type(sub.slice.value) and k.value == sub.slice.value]
+            if len(hit) != 1:
+                continue
+            v = hit[0]
+            free = {x.id for x in ast.walk(v) if isinstance(x, ast.Name)} - ({a.arg for a in v.args.args} if isinstance(v, ast.Lambda) else set())
+            if free & local:
+                continue               # a global the entry mentions is shadowed here
+            _replace_node(fn, sub, copy.deepcopy(v))
+            n_done += 1
+        for call in [x for x in _walk_local(fn) if isinstance(x, ast.Call) and isinstance(x.func, ast.Lambda)]:
+            lam = call.func
+            a = lam.args
+            if a.vararg or a.kwarg or a.kwonlyargs or a.posonlyargs or a.defaults or call.keywords or len(a.args) != len(call.args):
+                continue
+            if not all(_simple_arg(x) for x in call.args):
+                continue
+            if any(isinstance(x, (ast.Lambda, ast.NamedExpr, ast.ListComp, ast.SetComp, ast.DictComp, ast.GeneratorExp)) for x in ast.walk(lam.body)):
+                continue
+            mapping = {p_.arg: x for p_, x in zip(a.args, call.args)}
+            _replace_node(fn, call, _Renamer(mapping).visit(copy.deepcopy(lam.body)))
+            n_done += 1
     return n_done
 
 
@@ -2231,6 +2372,9 @@ def _module_constants(tree):
                     cands[a.id] = b
                 elif isinstance(a, ast.Name) and a.id.lstrip("_").isupper() and isinstance(b, ast.Tuple) and b.elts and all(isinstance(e, ast.Name) and e.id in klasses for e in b.elts):
                     cands[a.id] = b           # a fixed tuple of this module's classes (isinstance(x, _KINDS))
+                elif isinstance(a, ast.Name) and a.id.lstrip("_").isupper() and isinstance(b, ast.Tuple) and 0 < len(b.elts) <= 12 and \
+                        all(isinstance(e, ast.Constant) and isinstance(e.value, (str, int)) and not isinstance(e.value, bool) for e in b.elts):
+                    cands[a.id] = b           # a fixed tuple of literals (x in _PUNCTUATION)
     return {k: v for k, v in cands.items() if stores.get(k, 0) == 1}
 
 
@@ -2328,6 +2472,14 @@ def normalize(modname, tree):
                 stats["comprehensions"] += _loops_to_comprehensions(n)          # loops whose body became one statement by the passes above
                 stats["rotated_loops"] = stats.get("rotated_loops", 0) + _rotate_loops(n)
                 progress += k + _splice_starred_literals(n)
+                k2 = _duplicate_tail(n)
+                if k2:
+                    stats["threaded"] += k2
+                    stats["named_values"] += _named_values(n, unstable.get(n))
+                    progress += k2
+        k3 = _fold_table_lookups(tree)
+        stats["table_lookups"] = stats.get("table_lookups", 0) + k3
+        progress += k3
         if not progress or inv is None:
             break
         # verdicts threaded / starred literals spliced: calls of new helpers that could not be bound before may be inlinable now
